@@ -13,6 +13,14 @@ import z3
 from . import solve
 
 
+def _fp(t):
+    """order-insensitive fingerprint of a term (z3's simplifier orders commutative arguments by AST id, which differs between
+    re-executions): the sorted multiset of tokens of its s-expression"""
+    if os.environ.get("VERIF_DEBUG_FP"):
+        return " ".join(sorted(t.sexpr().replace("(", " ").replace(")", " ").split()))
+    return hash(tuple(sorted(t.sexpr().replace("(", " ").replace(")", " ").split())))
+
+
 class PathPruned(BaseException):
     """Abandon an infeasible / excluded path (BaseException: repo code must not swallow it)."""
 
@@ -21,14 +29,18 @@ class Unknown(BaseException):
     """Solver gave up, budget exhausted, or something the encoding cannot express: INCONCLUSIVE."""
 
 
+RESET_HOOKS = []       # callables clearing caches that hold z3 objects of the previous context
+
+
 class Node:
-    __slots__ = ("alts", "i", "kind", "models")
+    __slots__ = ("alts", "i", "kind", "models", "fp")
 
     def __init__(self, alts, kind, models=None):
         self.alts = alts
         self.i = 0
         self.kind = kind
         self.models = models or [None] * len(alts)
+        self.fp = None
 
 
 class Engine:
@@ -44,6 +56,13 @@ class Engine:
 
     # ---------------------------------------------------------------- per-path state
     def reset_path(self):
+        # A fresh z3 context per path: z3's simplifier orders commutative arguments (and picks normal forms) by AST id, so with a shared
+        # context the *syntactic* result of simplify differs between re-executions, conditions get decided syntactically in one
+        # execution and semantically in another, and the decision tree mis-aligns (measured: an unsat path was explored).  With a
+        # fresh context the re-executed prefix issues the same API calls in the same order, hence the same ids and the same normal forms.
+        z3.z3._main_ctx = None
+        for hook in RESET_HOOKS:
+            hook()
         self.depth = 0
         self._fresh_path = 0
         self.bits_reg = {}
@@ -161,18 +180,48 @@ class Engine:
         self.add(self.simp(c))
 
     # ---------------------------------------------------------------- decisions
-    def _decide(self, kind, compute_alts):
+    def _decide(self, kind, compute_alts, fingerprint=None):
         d = self.depth
         self.depth += 1
         if d < len(self.stack):
             n = self.stack[d]
+            if os.environ.get("VERIF_DEBUG_DET") and getattr(self, "_dbg_term", None) is not None and n.fp is not None:
+                old, new = n.fp, self._dbg_term
+                if old.ctx != new.ctx:
+                    old = old.translate(new.ctx)
+                    n.fp = old
+                if old.sort() == new.sort():
+                    s_ = z3.Solver(); s_.add(self.assertions); s_.add(old != new)
+                    if s_.check() == z3.sat:
+                        raise Unknown("REAL nondeterminism at decision %d:\n OLD %s\n NEW %s" % (d, old.sexpr()[:800], new.sexpr()[:800]))
+                else:
+                    raise Unknown("REAL nondeterminism (sort) at decision %d" % d)
+                return n.alts[n.i]
+            if n.kind != kind:
+                # the re-execution did not reach the same decision as when this node was created: the harness (or the code under
+                # test) is not deterministic; exploring on would pair stored feasibility verdicts with the wrong conditions
+                raise Unknown("non-deterministic re-execution at decision %d: %s/%s vs %s/%s" % (d, n.kind, n.fp, kind, fingerprint))
             return n.alts[n.i]
         alts, models = compute_alts()
         if not alts:
             raise PathPruned()
         self.stats["decisions"] += 1
-        self.stack.append(Node(alts, kind, models))
+        node = Node(alts, kind, models)
+        node.fp = fingerprint if not os.environ.get("VERIF_DEBUG_DET") else getattr(self, "_dbg_term", None)
+        self.stack.append(node)
         return alts[0]
+
+    def _adopt(self, n, i):
+        """a model stored at a decision node, translated into the current path's context"""
+        m = n.models[i]
+        try:
+            if m.ctx != z3.main_ctx():
+                m = m.translate(z3.main_ctx())
+                n.models[i] = m
+            return m
+        except Exception:
+            n.models[i] = None
+            return None
 
     def simp(self, t):
         """simplify modulo the literals already decided on this path"""
@@ -238,10 +287,11 @@ class Engine:
                 self.stats["forks_bool"] += 1
             return out, models
 
-        v = self._decide("bool", alts)
+        self._dbg_term = cond
+        v = self._decide("bool", alts, None)
         n = self.stack[self.depth - 1]
         if self._model is None and n.models[n.i] is not None:
-            self._model = n.models[n.i]
+            self._model = self._adopt(n, n.i)
         self.add(cond if v else z3.Not(cond))
         self._learn(cond, v)
         return v
@@ -280,10 +330,11 @@ class Engine:
                 self.stats["forks_int"] += 1
             return out, models
 
-        v = self._decide("int", alts)
+        self._dbg_term = term
+        v = self._decide("int", alts, None)
         n = self.stack[self.depth - 1]
         if self._model is None and n.models[n.i] is not None:
-            self._model = n.models[n.i]
+            self._model = self._adopt(n, n.i)
         val = z3.IntVal(v) if z3.is_int(term) else z3.BitVecVal(v, term.size())
         self.add(term == val)
         if z3.is_const(term) and term.decl().kind() == z3.Z3_OP_UNINTERPRETED:
